@@ -17,7 +17,9 @@ PROP = dict(
           "verdict, as measured by the exact reference margins (for the Switch "
           "test: at least one candidate link is within +-1 of a rule boundary or "
           "the candidate links disagree). Distinct = distinct generated input "
-          "tuples."),
+          "tuples. TestVerifC09RefVectors / TestVerifC09Pinned add 24 hand-computed "
+          "vectors for the reference itself and 7 pinned inputs (finding F8 "
+          "reproductions) through the real link."),
     assumptions=[
         "realistic domain: block height <= 2^32-1-2^17 and OutgoingCltvRejectDelta, MaxOutgoingCltvExpiry <= 2^16, so height+delta cannot wrap uint32 (wrapping heights are generated, run for crashes only and counted as outside_domain)",
         "realistic domain: incoming HTLC amount <= 1e13 msat (100 BTC, 10x lnd's wumbo channel limit); outbound fee rate <= 1e6 ppm (100%); base fee <= 2^32-1 (the advertised field is 32 bit); outgoing (onion) amount and both expiries range over their whole integer type",
